@@ -1352,6 +1352,23 @@ def m_reverse(eng, st, args, info):
     return [(st, ("reverse", v))]
 
 
+def m_then_with(eng, st, args, info):
+    """Ordering::then_with(self, f): self unless it is Equal, then f()."""
+    v, f = args
+    if v[0] == "adt" and v[1] == "core::cmp::Ordering":
+        if v[2] != "Equal":
+            return [(st, v)]
+        return eng.call_value(st, f, [], info["depth"])
+    return None
+
+
+def m_then(eng, st, args, info):
+    v, o = args
+    if v[0] == "adt" and v[1] == "core::cmp::Ordering":
+        return [(st, v if v[2] != "Equal" else o)]
+    return None
+
+
 def m_max_min(which):
     def m(eng, st, args, info):
         a, b = args
@@ -1583,6 +1600,8 @@ DEFAULT_MODELS = {
     "core::sync::atomic::Atomic::fetch_nand": m_atomic("fetch_nand"),
     "core::sync::atomic::Atomic::fetch_update": m_atomic("fetch_update"),
     "core::cmp::Ordering::reverse": m_reverse,
+    "core::cmp::Ordering::then_with": m_then_with,
+    "core::cmp::Ordering::then": m_then,
     "core::intrinsics::discriminant_value": m_discriminant_value,
     "core::num::count_ones": m_intrinsic1("count_ones", lambda a: I(bin(a[1] & ((1 << MASKS[a[2]]) - 1)).count("1"), "u32")),
     "core::num::swap_bytes": m_intrinsic1("swap_bytes", lambda a: I(int.from_bytes((a[1] & ((1 << MASKS[a[2]]) - 1)).to_bytes(MASKS[a[2]] // 8, "little"), "big"), a[2])),
